@@ -250,6 +250,9 @@ def run_case(case):
     layer = case['layer']
     fd = layer == 'j1939-22'
     unit = 60 if fd else 7
+    import importlib
+    FBFF = importlib.import_module('j1939.message_id').FrameFormat.FBFF
+    xrng = random.Random(case['seed'] ^ 0xFBFF)
     W = World(case['seed'], layer, (0.0001, 0.002))
     sim = W.sim
     viol = M.Violations()
@@ -328,7 +331,11 @@ def run_case(case):
             else:
                 rec = W.call('send', ca.send_pgn, 0, 0xC0 + rng.randrange(8), 255, 6, data)           # PDU1 group to the global address
         else:
-            rec = W.call('send', ca.send_pgn, 0, 0xD0 + rng.randrange(8), da, 6, data)
+            if fd and xrng.random() < 0.15:
+                # the optional frame_format argument (meaningful for Multi-PG only) given with a long message: the transfer runs as usual
+                rec = W.call('send', ca.send_pgn, 0, 0xD0 + rng.randrange(8), da, 6, data, 0, FBFF)
+            else:
+                rec = W.call('send', ca.send_pgn, 0, 0xD0 + rng.randrange(8), da, 6, data)
         sends.append(dict(t=rec['t0'], sa=sa, da=255 if mode == 'bam' else da, mode='bam' if mode == 'bam' else 'cmdt', ret=rec['ret'], exc=rec['exc'],
                           fb=rec['frames_before'], fa=rec['frames_after']))
 
